@@ -291,6 +291,18 @@ impl<A: PmCont> Hd<A> {
             _ => None,
         }
     }
+    fn zeroize(&mut self) {
+        use zeroize::Zeroize;
+        match self {
+            Hd::Raw(a) => a.zeroize(),
+            Hd::LRW(p) => p.zeroize(),
+            Hd::LRO(p) => p.zeroize(),
+            Hd::URW(p) => p.zeroize(),
+            Hd::URO(p) => p.zeroize(),
+            Hd::UNA(p) => p.zeroize(),
+            Hd::LNA(p) => p.zeroize(),
+        }
+    }
     fn slice_mut(&mut self) -> Option<&mut [u8]> {
         match self {
             Hd::Raw(a) => Some(a.as_mut_slice()),
@@ -330,6 +342,11 @@ pub enum Op {
     Resize(u8, usize),
     Write(u8, u8),
     Drop(u8),
+    /// explicit `Zeroize::zeroize()` on a live handle (release-observer mode only: the
+    /// statement of C14 does not list it among the transitions)
+    Zero(u8),
+    /// the handle is dropped while a panic unwinds through its owner (release-observer mode)
+    DropUnwind(u8),
 }
 
 #[derive(Clone, Debug, PartialEq, Eq)]
@@ -419,6 +436,10 @@ impl<A: PmCont> World<A> {
                     v.push(Op::Clone(s));
                 }
                 v.push(Op::Drop(s));
+                if with_raw {
+                    v.push(Op::Zero(s));
+                    v.push(Op::DropUnwind(s));
+                }
                 continue;
             }
             if lm == Lm::Unlocked {
@@ -449,6 +470,10 @@ impl<A: PmCont> World<A> {
                 v.push(Op::Write(s, 3));
             }
             v.push(Op::Drop(s));
+            if with_raw {
+                v.push(Op::Zero(s));
+                v.push(Op::DropUnwind(s));
+            }
         }
         v
     }
@@ -617,6 +642,35 @@ impl<A: PmCont> World<A> {
                 sl.copy_from_slice(&pat);
                 self.sync_model(s, Some(pat));
                 Outcome::Ok
+            }
+            Op::Zero(s) => {
+                let s = s as usize;
+                let Some(h) = self.slots[s].as_mut() else { return Outcome::Skipped };
+                match guarded(AssertUnwindSafe(|| h.zeroize())) {
+                    Ok(()) => {
+                        let n = self.model[s].as_ref().map(|m| m.content.len()).unwrap_or(0);
+                        self.sync_model(s, Some(vec![0u8; n]));
+                        Outcome::Ok
+                    }
+                    Err(p) => Outcome::Panic(p),
+                }
+            }
+            Op::DropUnwind(s) => {
+                let s = s as usize;
+                let Some(h) = self.slots[s].take() else { return Outcome::Skipped };
+                self.model[s] = None;
+                // the owner panics; the handle is dropped by the unwinder
+                let r = guarded(AssertUnwindSafe(move || {
+                    let _owned = h;
+                    if std::hint::black_box(true) {
+                        panic!("owner of a protected region panics");
+                    }
+                }));
+                match r {
+                    Err(p) if p.contains("owner of a protected region panics") => Outcome::Ok,
+                    Err(p) => Outcome::Panic(p),
+                    Ok(()) => Outcome::Ok,
+                }
             }
             Op::Drop(s) => {
                 let s = s as usize;
@@ -922,7 +976,7 @@ impl Explorer {
             self.fails.push(json!({
                 "signature": sig,
                 "what": format!("{} len {} after {:?}{}: {}", self.cname, self.base_len, ops, if k > 0 { format!(" with mlock refused from call {}", k) } else { String::new() }, detail),
-                "case": {"bin": "mcn", "container": self.cname, "base_len": self.base_len, "mode": format!("{:?}", self.mode), "ops": ops, "fail_from": k, "resize_targets": self.resize_targets},
+                "case": {"bin": "mcn", "container": self.cname, "base_len": self.base_len, "mode": format!("{:?}", self.mode), "mlockall": MLOCKALL.load(Ordering::SeqCst), "ops": ops, "fail_from": k, "resize_targets": self.resize_targets},
             }));
         }
     }
@@ -1081,6 +1135,8 @@ fn op_name(op: &Op) -> String {
         Op::Resize(_, _) => "Resize".into(),
         Op::Write(_, _) => "Write".into(),
         Op::Drop(_) => "Drop".into(),
+        Op::Zero(_) => "Zero".into(),
+        Op::DropUnwind(_) => "DropUnwind".into(),
     }
 }
 fn outcome_name(o: &Outcome) -> &'static str {
@@ -1215,6 +1271,9 @@ fn run_ctor_family() -> Value {
 fn run_unit<A: PmCont>(mode: Mode, base_len: usize, depth: usize, probe_depth: usize, replay: Option<(Vec<Op>, i64)>) -> Value {
     let resize_targets: Vec<usize> = match mode {
         Mode::Release => vec![0, 1, base_len / 2, base_len.saturating_sub(1), base_len * 2, base_len + PAGE],
+        // C14: an exact page multiple reached by growing (in-place growth and the guard-page
+        // geometry disagree only there)
+        Mode::Kernel => vec![0, 1, PAGE, PAGE + 1],
         _ => vec![0, 1, PAGE + 1],
     };
     let mut rt: Vec<usize> = vec![];
@@ -1275,9 +1334,19 @@ pub fn worker(args: &[String]) -> i32 {
     // args: mode container len depth probe_depth
     let mode = match args[0].as_str() {
         "kernel" => Mode::Kernel,
-        "release" => Mode::Release,
+        "release" | "release-mlockall" => Mode::Release,
         _ => Mode::Fault,
     };
+    if args[0] == "release-mlockall" {
+        // environment variant: the whole process runs with every current and future page locked
+        // (a service hardened with mlockall); what is released must still be zero
+        let rc = unsafe { libc::mlockall(libc::MCL_CURRENT | libc::MCL_FUTURE) };
+        if rc != 0 {
+            println!("{}", json!({"nodes": 0, "transitions": 0, "executions": 0, "fails": [], "skipped": format!("mlockall refused: {}", std::io::Error::last_os_error())}));
+            return 0;
+        }
+        MLOCKALL.store(true, Ordering::SeqCst);
+    }
     let cont = args[1].as_str();
     let len: usize = args[2].parse().unwrap();
     let depth: usize = args[3].parse().unwrap();
@@ -1303,6 +1372,8 @@ pub fn worker(args: &[String]) -> i32 {
 
 // ---------------------------------------------------------------------------------------
 // parent: spawn one worker process per unit (kernel state is per process), 16 in parallel
+
+pub static MLOCKALL: std::sync::atomic::AtomicBool = std::sync::atomic::AtomicBool::new(false);
 
 pub struct Unit {
     pub cont: String,
@@ -1413,7 +1484,7 @@ pub fn run_c15() -> i32 {
     let mut ctx = Ctx::new("C15", "model_checking");
     let depth = ctx.tier.pick(5usize, 6);
     let units = units_for(&[1, 16, 64, PAGE - 1, PAGE, PAGE + 1, 3 * PAGE], &[1, 32, 64, 4096, 4097]);
-    ctx.rule = format!("history-replay exploration with the allocator release observer (hook H2): every history of length <= {} over constructors (incl. the raw heap container), fill/write, resize up (x2, +1 page) and down (0, 1, len/2, len-1), clone, lock/unlock/protect transitions and drop is executed on fresh real objects (7 HeapBytes lengths up to 3 pages, 5 fixed arrays; plus large regions 64 KiB..1 MiB+1 at depth 3/4); at every Release event the whole released allocation (spare capacity included) is read through process_vm_readv immediately before free() and must be all zero; alloc/release counts must balance after the last drop; non-trivial = every executed history", depth);
+    ctx.rule = format!("history-replay exploration with the allocator release observer (hook H2): every history of length <= {} over constructors (incl. the raw heap container), fill/write, resize up (x2, +1 page) and down (0, 1, len/2, len-1), clone, lock/unlock/protect transitions, explicit zeroize() of a live handle (followed by refills and resizes), drop, and drop during panic unwinding is executed on fresh real objects (7 HeapBytes lengths up to 3 pages, 5 fixed arrays; plus large regions 64 KiB..1 MiB+1 at depth 3/4); at every Release event the whole released allocation (spare capacity included) is read through process_vm_readv immediately before free() and must be all zero; alloc/release counts must balance after the last drop; non-trivial = every executed history", depth);
     ctx.assume("only the page-aligned allocator is observed (the property's scope); stack and Vec<u8> containers are outside the statement");
     let res = spawn_units("release", &units, depth, 0);
     absorb_units(&mut ctx, "C15", res, &units);
@@ -1427,6 +1498,20 @@ pub fn run_c15() -> i32 {
         ctx.note("units_small", u);
     }
     ctx.note("large_region_depth", json!(bdepth));
+    // environment variant: the same exploration in a process that called mlockall(MCL_CURRENT |
+    // MCL_FUTURE) — release paths that lean on the kernel (madvise, munmap of locked pages) behave
+    // differently there
+    let env_units = units_for(&[1, PAGE + 1, 3 * PAGE], &[64, 4097]);
+    let edepth = ctx.tier.pick(4usize, 5);
+    let res = spawn_units("release-mlockall", &env_units, edepth, 0);
+    let skipped: Vec<String> = res.iter().filter_map(|r| r.as_ref().ok().and_then(|v| v["skipped"].as_str().map(|s| s.to_string()))).collect();
+    let keep = ctx.notes.remove("units");
+    absorb_units(&mut ctx, "C15", res, &env_units);
+    ctx.notes.remove("units");
+    if let Some(u) = keep {
+        ctx.note("units", u);
+    }
+    ctx.note("mlockall_environment", json!({"depth": edepth, "units": env_units.iter().map(|u| format!("{} len {}", u.cont, u.len)).collect::<Vec<_>>(), "skipped": skipped}));
     ctx.note("depth", json!(depth));
     ctx.require_outcome("Resize:ok");
     ctx.require_outcome("Drop:ok");
@@ -1459,7 +1544,7 @@ pub fn replay(case: &Value) -> Option<String> {
     }
     let mode = match case["mode"].as_str().unwrap_or("Kernel") {
         "Kernel" => "kernel",
-        "Release" => "release",
+        "Release" => if case["mlockall"] == true { "release-mlockall" } else { "release" },
         _ => "fault",
     };
     let arg = json!({"ops": case["ops"], "fail_from": case["fail_from"]}).to_string();
